@@ -1,14 +1,53 @@
 (* C18 — simpleTAL never lets data become markup, code or leftover state.
    Property theorems only. *)
 From Coq Require Import String.
-From PG Require Import Lib.Str Model.TALProg Model.TALVM.
+From PG Require Import Lib.Str Model.TALProg Model.TALProgSpec Model.TALVM Proofs.TALVMFacts.
 Local Open Scope N_scope.
 
-(* non-vacuity: a real compiled program (<p tal:define="x a" tal:repeat="i l" tal:content="i">d</p>) is well formed *)
-Example C18_wf_example :
-  wf_program
-    [CStartScope [] []; CDefine [(true, (lit "x"%string, lit "a"%string))]; CRepeat (lit "i"%string) (lit "l"%string) 2%nat;
-     CContent false false (lit "i"%string) 2%nat; CStartTag (lit "p"%string) false; COutput (lit "d"%string);
-     CEndTagEndScope (lit "p"%string) false false]
-    [(2%nat, 6%nat)] [] = true.
-Proof. vm_compute. reflexivity. Qed.
+(* After any expansion the caller's context is what it was: for EVERY structurally well-formed
+   program (wf_program is evaluated on the real compiler's output in Corr/K17), EVERY data state
+   and ALL ways the data may decide conditions, repeat lengths, nothing/default/value/template
+   contents and macro look-ups — including false conditions, empty repeats, missing paths
+   (= nothing), macro calls with slot filling — a run of the interpreter that terminates
+   ends with locals, localStack, repeatMap, repeatStack exactly as before, an empty scope stack
+   and the program counter at the end; and the interpreter never gets stuck (no pop from an empty
+   or wrongly shaped stack, no undefined symbol).  Termination is by explicit fuel: the statement
+   covers every fuel, i.e. every terminating run. *)
+Theorem C18_context_restored :
+  forall (p : program) (t : symtab) (m : macrotab), wf_program p t m = true ->
+  forall (D : Type) (o_cond : D -> cmd -> bool) (o_rep : D -> cmd -> rep_dec) (o_val : D -> cmd -> val_dec)
+         (o_mac : D -> cmd -> mac_dec) (o_upd : D -> nat -> cmd -> D) (fuel : nat) (c : ctx) (d : D),
+    vm_run p t (all_subs p m) D o_cond o_rep o_val o_mac o_upd fuel c d <> Stuck /\
+    forall mf, vm_run p t (all_subs p m) D o_cond o_rep o_val o_mac o_upd fuel c d = Done mf ->
+      c_sc (cx D mf) = c_sc c /\ sstack D mf = [] /\ pc D mf = length p.
+Proof. exact TALVMFacts.context_restored. Qed.
+Print Assumptions C18_context_restored.
+
+(* ... and the only names an expansion can add to the globals are those of explicit `global`
+   defines of the template (plus the built-in slots `repeat` and `attrs`, which exist already). *)
+Theorem C18_globals_only_explicit :
+  forall (p : program) (t : symtab) (subs : list subt) (D : Type) o_cond o_rep o_val o_mac o_upd
+         (fuel : nat) (c : ctx) (d : D) (mf : mach D),
+    vm_run p t subs D o_cond o_rep o_val o_mac o_upd fuel c d = Done mf ->
+    forall x, In x (c_globals (cx D mf)) ->
+      In x (c_globals c) \/ In x (prog_globals p) \/ x = REPEAT \/ x = ATTRS.
+Proof. exact TALVMFacts.globals_only_explicit. Qed.
+Print Assumptions C18_globals_only_explicit.
+
+(* non-vacuity: the real program of <p tal:define="x a; global g b" tal:repeat="i l" tal:content="i">d</p>
+   is well formed, and a run with a three-item sequence terminates with the context restored
+   (the define pushes the locals once, the repeat once more; both are popped) *)
+Definition ex_prog : program :=
+  [CStartScope [] []; CDefine [(true, (lit "x"%string, lit "a"%string)); (false, (lit "g"%string, lit "b"%string))];
+   CRepeat (lit "i"%string) (lit "l"%string) 2%nat; CContent false false (lit "i"%string) 2%nat;
+   CStartTag (lit "p"%string) false; COutput (lit "d"%string); CEndTagEndScope (lit "p"%string) false false].
+
+Example C18_example :
+  wf_program ex_prog [(2%nat, 6%nat)] [] = true /\
+  match vm_run ex_prog [(2%nat, 6%nat)] [] unit (fun _ _ => true) (fun _ _ => RLoop 2) (fun _ _ => VValue)
+               (fun _ _ => MOther) (fun d _ _ => d) 40 (mkCtx (mkSc [lit "v"%string] [] [] []) [lit "l"%string]) tt with
+  | Done mf => c_sc (cx unit mf) = mkSc [lit "v"%string] [] [] [] /\
+               c_globals (cx unit mf) = [lit "repeat"%string; lit "g"%string; lit "attrs"%string; lit "l"%string]
+  | _ => False
+  end.
+Proof. vm_compute. repeat split; reflexivity. Qed.
